@@ -476,6 +476,101 @@ pub fn empty_oracle(c: &EmptyCase) -> Verdict {
         .class_if(!c.path.is_empty(), "nested_position"))
 }
 
+// ------------------------------------------------------------------ holes among the elements of a vector
+
+/// A vector column has no room for a null / unset / (for fixed-size element types) empty element: elements are
+/// written back to back. A Rust value holding such an element does not fit and must be refused; sending the
+/// marker bytes in the element's place makes the database read another value (a null int reads as -1).
+#[derive(Debug, Clone, Serialize, Deserialize)]
+pub struct VecElemCase {
+    /// element type: 0 int, 1 bigint, 2 boolean, 3 text, 4 blob, 5 double
+    pub elem: u8,
+    pub dims: u8,
+    pub at: u8,
+    /// 0 = null (Option::None), 1 = unset (MaybeUnset::Unset), 2 = CqlValue::Empty, 3 = no hole (control)
+    pub hole: u8,
+}
+
+fn bind_vector_with_hole<X: scylla_cql_core::serialize::value::SerializeValue + Clone>(sv: &mut SerializedValues, ct: &ColumnType, x: impl Fn(usize) -> X, dims: usize, at: usize, hole: u8) -> Result<(), String> {
+    use scylla_cql_core::value::MaybeUnset;
+    match hole {
+        0 => sv.add_value(&(0..dims).map(|i| if i == at { None } else { Some(x(i)) }).collect::<Vec<Option<X>>>(), ct),
+        1 => sv.add_value(&(0..dims).map(|i| if i == at { MaybeUnset::Unset } else { MaybeUnset::Set(x(i)) }).collect::<Vec<MaybeUnset<X>>>(), ct),
+        _ => sv.add_value(&(0..dims).map(x).collect::<Vec<X>>(), ct),
+    }
+    .map_err(|e| e.to_string())
+}
+
+pub fn vec_elem_oracle(c: &VecElemCase) -> Verdict {
+    let dims = c.dims.clamp(1, 8) as usize;
+    let at = c.at as usize % dims;
+    let (et, fixed) = match c.elem % 6 {
+        0 => (Nat::Int, true),
+        1 => (Nat::BigInt, true),
+        2 => (Nat::Boolean, true),
+        3 => (Nat::Text, false),
+        4 => (Nat::Blob, false),
+        _ => (Nat::Double, true),
+    };
+    let t = MType::Vector(Box::new(nat(et)), dims as u16);
+    let ct = column_type(&t);
+    let mut sv = SerializedValues::new();
+    sv.add_value(&7i32, &ColumnType::Native(scylla_cql_core::frame::response::result::NativeType::Int)).map_err(|e| bad("harness", e.to_string()))?;
+    let before = sv_bytes(&sv);
+    let count_before = sv.element_count();
+    let hole = c.hole % 4;
+    let res = if hole == 2 {
+        let items: Vec<CqlValue> = (0..dims)
+            .map(|i| {
+                if i == at {
+                    CqlValue::Empty
+                } else {
+                    match c.elem % 6 {
+                        0 => CqlValue::Int(i as i32),
+                        1 => CqlValue::BigInt(i as i64),
+                        2 => CqlValue::Boolean(i % 2 == 0),
+                        3 => CqlValue::Text(format!("t{i}")),
+                        4 => CqlValue::Blob(vec![i as u8; 3]),
+                        _ => CqlValue::Double(i as f64),
+                    }
+                }
+            })
+            .collect();
+        sv.add_value(&CqlValue::Vector(items), &ct).map_err(|e| e.to_string())
+    } else {
+        match c.elem % 6 {
+            0 => bind_vector_with_hole(&mut sv, &ct, |i| i as i32, dims, at, hole),
+            1 => bind_vector_with_hole(&mut sv, &ct, |i| i as i64, dims, at, hole),
+            2 => bind_vector_with_hole(&mut sv, &ct, |i| i % 2 == 0, dims, at, hole),
+            3 => bind_vector_with_hole(&mut sv, &ct, |i| format!("t{i}"), dims, at, hole),
+            4 => bind_vector_with_hole(&mut sv, &ct, |i| vec![i as u8; 3], dims, at, hole),
+            _ => bind_vector_with_hole(&mut sv, &ct, |i| i as f64, dims, at, hole),
+        }
+    };
+    let (rel, what) = match hole {
+        0 => (Rel::Reject, "null"),
+        1 => (Rel::Reject, "unset"),
+        // an empty element of a variable-size element type is its zero-length value: nothing to judge
+        2 if fixed => (Rel::Reject, "empty"),
+        2 => (Rel::Unspecified, "empty"),
+        _ => (Rel::Accept, "none"),
+    };
+    let who = format!("a {dims}-element Rust vector value whose element {at} is {what}");
+    match check_bind(rel, &who, &t, &before, count_before, &sv, &res, None) {
+        // the signature names the hole, so that a recorded finding about one kind of hole covers nothing else
+        Err((sig, msg)) if sig == "mismatch_accepted" => Err((format!("{what}_element_of_vector_sent"), msg)),
+        other => other,
+    }?;
+    if hole == 3 {
+        // control: the full vector is accepted and is what the reference reads
+        let cells = parse_values(&sv_bytes(&sv)).map_err(|e| bad("request_bytes_malformed", e))?;
+        let Some(WValue::Bytes(b)) = cells.last() else { return Err(bad("accepted_bytes_wrong", "no cell".to_string())) };
+        let dec = ref_decode(&t, Some(b)).map_err(|e| bad("accepted_bytes_wrong", format!("full vector into {t:?}: {e:?}")))?;
+        vassert!(matches!(&dec, MVal::Vector(items) if items.len() == dims), "accepted_bytes_wrong", "full vector into {t:?} decodes to {dec:?}");
+    }
+    Ok(CaseInfo::new(rel == Rel::Reject).class(format!("hole_{what}")).class_if(fixed, "fixed_size_elements"))
+}
+
 /// A fully populated model value of type `t` (no nulls, no empty collections).
 pub fn dynamic_witness(t: &MType, seed: u64) -> MVal {
     use MVal as V;
@@ -530,7 +625,7 @@ pub fn run(ctx: &Ctx, rep: &mut Report) {
     LEVELS.store(ctx.tier.pick(2, 3), std::sync::atomic::Ordering::SeqCst);
     let tb = tables();
     rep.rule = format!(
-        "matrix (exhaustive): {} Rust carrier types (every leaf type the driver implements the value traits for - std, value::*, chrono, time, num-bigint 0.3/0.4, bigdecimal, secrecy, a derived UDT struct - alone and inside Option / Vec / Vec<Vec> / HashSet / BTreeSet / HashMap / BTreeMap / tuples / Box / Arc / MaybeEmpty, plus borrowed and serialize-only forms) x {} column types (20 natives; 20 one-level collections/tuples/UDTs/vectors per native; a second level over the lists, sets, vectors, maps and tuples; the thorough tier adds a third level). Per cell: a fully populated witness value is bound through SerializedValues::add_value after two earlier values and through a whole row (i32, T); DeserializeValue::type_check and the row (i32, T) type_check are called (the latter also against rows of 0, 1 and 3 columns, which never fit a 2-tuple). The relation Accept/Reject/Unspecified is derived from docs/source/data-types (Unspecified - HashSet/BTreeSet for a list column, a Rust tuple shorter than the column's - may go either way). Accepted binds must decode (reference decoder) to the witness; refused binds must leave bytes and count untouched; element_count() == iter().count() == the parsed cell count always. empties (exhaustive): CqlValue::Empty at every position (top level, collection element, map key/value, tuple/UDT field, recursively) of a fitting dynamic value for every column type - refused where the position's type has no separate empty representation (counter, duration, list, set, map, UDT), accepted as a zero-length cell elsewhere (strings and blobs unjudged). histories: 1..24 binds into one SerializedValues - typed witnesses into accepted / rejected columns, values failing after part of them was written (a mistyped element at position k of a list/set/vector/map, a later tuple or UDT field, an inner list, a wrong vector dimension, an unknown UDT field), conversion overflows (BigDecimal exponent, leap-second NaiveTime), dynamic values; 2% of histories start 0..3 values short of 65 535 so that the 65 536th is attempted. Non-trivial = (matrix) a rejected pair with a nested column type; (histories) a failure after a partial write with other values present.",
+        "matrix (exhaustive): {} Rust carrier types (every leaf type the driver implements the value traits for - std, value::*, chrono, time, num-bigint 0.3/0.4, bigdecimal, secrecy, a derived UDT struct - alone and inside Option / Vec / Vec<Vec> / HashSet / BTreeSet / HashMap / BTreeMap / tuples / Box / Arc / MaybeEmpty, plus borrowed and serialize-only forms) x {} column types (20 natives; 20 one-level collections/tuples/UDTs/vectors per native; a second level over the lists, sets, vectors, maps and tuples; the thorough tier adds a third level). Per cell: a fully populated witness value is bound through SerializedValues::add_value after two earlier values and through a whole row (i32, T); DeserializeValue::type_check and the row (i32, T) type_check are called (the latter also against rows of 0, 1 and 3 columns, which never fit a 2-tuple). The relation Accept/Reject/Unspecified is derived from docs/source/data-types (Unspecified - HashSet/BTreeSet for a list column, a Rust tuple shorter than the column's - may go either way). Accepted binds must decode (reference decoder) to the witness; refused binds must leave bytes and count untouched; element_count() == iter().count() == the parsed cell count always. empties (exhaustive): CqlValue::Empty at every position (top level, collection element, map key/value, tuple/UDT field, recursively) of a fitting dynamic value for every column type - refused where the position's type has no separate empty representation (counter, duration, list, set, map, UDT), accepted as a zero-length cell elsewhere (strings and blobs unjudged). vector_elements (exhaustive): Vec<Option<X>> / Vec<MaybeUnset<X>> / CqlValue::Vector holding a null / unset / Empty element at every position of 1..4-dimensional vectors of int, bigint, boolean, double, text, blob - must be refused (vector elements are written back to back; there is no encoding for a hole), the full vector must be accepted. histories: 1..24 binds into one SerializedValues - typed witnesses into accepted / rejected columns, values failing after part of them was written (a mistyped element at position k of a list/set/vector/map, a later tuple or UDT field, an inner list, a wrong vector dimension, an unknown UDT field), conversion overflows (BigDecimal exponent, leap-second NaiveTime), dynamic values; 2% of histories start 0..3 values short of 65 535 so that the 65 536th is attempted. Non-trivial = (matrix) a rejected pair with a nested column type; (histories) a failure after a partial write with other values present.",
         tb.carriers.len(),
         tb.types.len()
     );
@@ -543,6 +638,7 @@ pub fn run(ctx: &Ctx, rep: &mut Report) {
         match check.as_str() {
             "histories" => replay_case::<History, _>(rep, check, case_v, history_oracle),
             "empties" => replay_case::<EmptyCase, _>(rep, check, case_v, empty_oracle),
+            "vector_elements" => replay_case::<VecElemCase, _>(rep, check, case_v, vec_elem_oracle),
             _ => replay_case::<Cell, _>(rep, check, case_v, cell_oracle),
         }
         return;
@@ -597,6 +693,21 @@ pub fn run(ctx: &Ctx, rep: &mut Report) {
             }
         }
         finish_direct(rep, "empties", st, fails, true);
+    }
+    // null / unset / empty at every position of small vectors of six element types
+    {
+        let mut st = Stats::default();
+        let mut fails = vec![];
+        for elem in 0..6u8 {
+            for dims in 1..=4u8 {
+                for at in 0..dims {
+                    for hole in 0..4u8 {
+                        eval_direct(&mut st, &mut fails, &VecElemCase { elem, dims, at, hole }, vec_elem_oracle);
+                    }
+                }
+            }
+        }
+        finish_direct(rep, "vector_elements", st, fails, true);
     }
     run_prop_par(rep, "histories", ctx.tier.pick(20_000, 1_000_000), ncpu(), history, history_oracle);
 }
